@@ -1,6 +1,7 @@
 (* C35 - the map list and its modelled sections end on every byte string, whatever counts the file announces. *)
 From Coq Require Import ZArith List Bool Lia.
-Require Import V.Lib.Val V.Lib.Result V.Dex.MapWalkModel.
+Require Import V.Lib.Val V.Lib.Result V.Dex.LebModel V.Dex.StringsModel V.Dex.MapWalkModel.
+Require V.Misc.TermProofs.
 Import ListNotations.
 Open Scope Z_scope.
 
@@ -38,13 +39,15 @@ Section Loop.
     - intros H. injection H as ->. exact (rd_noo bs Hb R).
   Qed.
   Lemma read_n_rest : forall fuel count bs acc xs r, read_n rd fuel count bs acc = Ok (xs, r) -> (length r <= length bs)%nat.
-  Proof.
+  Proof using rd_progress.
+    clear rd_noo bound.
     induction fuel as [|f IH]; intros count bs acc xs r H; [discriminate|]. cbn [read_n] in H. destruct (count <=? 0); [injection H as _ <-; lia|].
     destruct (rd bs) as [[x r']|e] eqn:R; [|discriminate]. pose proof (rd_progress _ _ _ R). apply IH in H. lia.
   Qed.
   (* ... and the number of records is bounded by the bytes *)
   Lemma read_n_count : forall fuel count bs acc xs r, read_n rd fuel count bs acc = Ok (xs, r) -> (length xs + length r <= length acc + length bs)%nat.
-  Proof.
+  Proof using rd_progress.
+    clear rd_noo bound.
     induction fuel as [|f IH]; intros count bs acc xs r H; [discriminate|]. cbn [read_n] in H. destruct (count <=? 0); [injection H as <- <-; rewrite rev_length; lia|].
     destruct (rd bs) as [[x r']|e] eqn:R; [|discriminate]. pose proof (rd_progress _ _ _ R). apply IH in H. cbn [length] in H. lia.
   Qed.
@@ -98,6 +101,87 @@ Proof.
   intros H'. injection H' as _ <-. lia.
 Qed.
 
+(* string data and code items *)
+Lemma read_u_noo bs : noo (read_u bs).  Proof. exact (TermProofs.read_u_no_oof bs). Qed.
+Lemma read_u_progress bs v r : read_u bs = Ok (v, r) -> (length r < length bs)%nat.  Proof. exact (TermProofs.read_u_consumes bs v r). Qed.
+Lemma read_s_noo bs : noo (read_s bs).  Proof. exact (TermProofs.read_s_no_oof bs). Qed.
+Lemma read_s_progress bs v r : read_s bs = Ok (v, r) -> (length r < length bs)%nat.  Proof. exact (TermProofs.read_s_consumes bs v r). Qed.
+Lemma after0_length : forall z, (length (after0 z) <= length z)%nat.
+Proof. induction z as [|b t IH]; cbn [after0 length]; [lia|]. destruct (b =? 0); lia. Qed.
+Lemma strdata_noo bs : noo (rd_strdata bs).
+Proof.
+  unfold rd_strdata. destruct (read_u bs) as [[n r]|e] eqn:U; cbn [bind]; [|intros H; injection H as ->; exact (read_u_noo _ U)].
+  destruct (has0 r); discriminate.
+Qed.
+Lemma strdata_progress bs x r : rd_strdata bs = Ok (x, r) -> (length r < length bs)%nat.
+Proof.
+  unfold rd_strdata. destruct (read_u bs) as [[n r0]|e] eqn:U; cbn [bind]; [|discriminate]. pose proof (read_u_progress _ _ _ U).
+  destruct (has0 r0); [|discriminate]. intros H'. injection H' as _ <-. pose proof (after0_length r0). lia.
+Qed.
+Lemma pair_noo bs : noo (rd_pair bs).
+Proof.
+  unfold rd_pair. destruct (read_u bs) as [[a r]|e] eqn:U; cbn [bind]; [|intros H; injection H as ->; exact (read_u_noo _ U)].
+  destruct (read_u r) as [[b r2]|e] eqn:U2; cbn [bind]; [discriminate|]. intros H; injection H as ->; exact (read_u_noo _ U2).
+Qed.
+Lemma pair_progress bs x r : rd_pair bs = Ok (x, r) -> (length r < length bs)%nat.
+Proof.
+  unfold rd_pair. destruct (read_u bs) as [[a r0]|e] eqn:U; cbn [bind]; [|discriminate]. pose proof (read_u_progress _ _ _ U).
+  destruct (read_u r0) as [[b r2]|e] eqn:U2; cbn [bind]; [|discriminate]. pose proof (read_u_progress _ _ _ U2). intros H'. injection H' as _ <-. lia.
+Qed.
+Lemma handler_noo fuel bs : (length bs < fuel)%nat -> noo (rd_handler fuel bs).
+Proof.
+  intros Hf. unfold rd_handler. destruct (read_s bs) as [[size r]|e] eqn:U; cbn [bind]; [|intros H; injection H as ->; exact (read_s_noo _ U)].
+  pose proof (read_s_progress _ _ _ U). destruct (read_n rd_pair fuel (Z.abs size) r []) as [[ps r1]|e] eqn:R; cbn [bind].
+  - destruct (size <=? 0); [|discriminate]. destruct (read_u r1) as [[c r2]|e] eqn:U2; cbn [bind]; [discriminate|]. intros H0; injection H0 as ->; exact (read_u_noo _ U2).
+  - intros H0. injection H0 as ->. revert R. apply (read_n_ends _ rd_pair (S (length r))); try lia; [intros; apply pair_noo | apply pair_progress].
+Qed.
+Lemma handler_progress fuel bs x r : rd_handler fuel bs = Ok (x, r) -> (length r < length bs)%nat.
+Proof.
+  unfold rd_handler. destruct (read_s bs) as [[size r0]|e] eqn:U; cbn [bind]; [|discriminate]. pose proof (read_s_progress _ _ _ U).
+  destruct (read_n rd_pair fuel (Z.abs size) r0 []) as [[ps r1]|e] eqn:R; cbn [bind]; [|discriminate]. pose proof (read_n_rest _ _ pair_progress _ _ _ _ _ _ R).
+  destruct (size <=? 0).
+  - destruct (read_u r1) as [[c r2]|e] eqn:U2; cbn [bind]; [|discriminate]. pose proof (read_u_progress _ _ _ U2). intros H'. injection H' as _ <-. lia.
+  - intros H'. injection H' as _ <-. lia.
+Qed.
+Lemma code_noo L fuel bs : (length bs < fuel)%nat -> noo (rd_code L fuel bs).
+Proof.
+  intros Hf. unfold rd_code. set (bs0 := skipn _ bs). assert (B0 : (length bs0 <= length bs)%nat) by (unfold bs0; rewrite skipn_length; lia).
+  destruct (take_n 16 bs0) as [[h r]|e] eqn:T; cbn [bind]; [|intros H; injection H as ->; exact (take_n_noo _ _ T)]. pose proof (take_n_spec _ _ _ _ T).
+  set (tries := le (firstn 2 (skipn 6 h))). set (insns := le (skipn 12 h)). set (r1 := skipn _ r).
+  assert (B1 : (length r1 <= length r)%nat) by (unfold r1; rewrite skipn_length; lia).
+  assert (Q : forall r2, (length r2 <= length r1)%nat -> noo (if 0 <? tries
+        then do '(ts, r3) <- read_n (rd_fixed 8) fuel tries r2 []; do '(hs, r4) <- read_u r3; do '(hl, r5) <- read_n (rd_handler fuel) fuel hs r4 []; Ok ((Z.of_nat (length ts), Z.of_nat (length hl)), r5)
+        else Ok ((0, 0), r2))).
+  { intros r2 B2. destruct (0 <? tries); [|discriminate]. assert (P8 := fixed_progress 8 ltac:(lia)).
+    destruct (read_n (rd_fixed 8) fuel tries r2 []) as [[ts r3]|e] eqn:R1; cbn [bind].
+    2:{ intros H'; injection H' as ->. revert R1. apply (read_n_ends _ (rd_fixed 8) (S (length r2))); try lia; [intros; apply fixed_noo | exact P8]. }
+    pose proof (read_n_rest _ _ P8 _ _ _ _ _ _ R1).
+    destruct (read_u r3) as [[hs r4]|e] eqn:U; cbn [bind]; [|intros H'; injection H' as ->; exact (read_u_noo _ U)]. pose proof (read_u_progress _ _ _ U).
+    destruct (read_n (rd_handler fuel) fuel hs r4 []) as [[hl r5]|e] eqn:R2; cbn [bind]; [discriminate|].
+    intros H'; injection H' as ->. revert R2. apply (read_n_ends _ (rd_handler fuel) fuel); try lia; [intros b Hb; apply handler_noo; exact Hb | apply handler_progress]. }
+  destruct (Z.odd insns && (0 <? tries)).
+  - destruct (u16 r1) as [[p x]|e] eqn:U; cbn [bind]; [|intros H'; injection H' as ->; exact (u16_noo _ U)]. pose proof (u16_spec _ _ _ U). apply Q. lia.
+  - cbn [bind]. apply Q. lia.
+Qed.
+Lemma code_progress L fuel bs x r : rd_code L fuel bs = Ok (x, r) -> (length r < length bs)%nat.
+Proof.
+  unfold rd_code. set (bs0 := skipn _ bs). assert (B0 : (length bs0 <= length bs)%nat) by (unfold bs0; rewrite skipn_length; lia).
+  destruct (take_n 16 bs0) as [[h r0]|e] eqn:T; cbn [bind]; [|discriminate]. pose proof (take_n_spec _ _ _ _ T).
+  set (tries := le (firstn 2 (skipn 6 h))). set (insns := le (skipn 12 h)). set (r1 := skipn _ r0).
+  assert (B1 : (length r1 <= length r0)%nat) by (unfold r1; rewrite skipn_length; lia).
+  assert (Q : forall r2, (length r2 <= length r1)%nat -> (if 0 <? tries
+        then do '(ts, r3) <- read_n (rd_fixed 8) fuel tries r2 []; do '(hs, r4) <- read_u r3; do '(hl, r5) <- read_n (rd_handler fuel) fuel hs r4 []; Ok ((Z.of_nat (length ts), Z.of_nat (length hl)), r5)
+        else Ok ((0, 0), r2)) = Ok (x, r) -> (length r <= length r2)%nat).
+  { intros r2 B2. destruct (0 <? tries); [|intros H'; injection H' as _ <-; lia]. assert (P8 := fixed_progress 8 ltac:(lia)).
+    destruct (read_n (rd_fixed 8) fuel tries r2 []) as [[ts r3]|e] eqn:R1; cbn [bind]; [|discriminate]. pose proof (read_n_rest _ _ P8 _ _ _ _ _ _ R1).
+    destruct (read_u r3) as [[hs r4]|e] eqn:U; cbn [bind]; [|discriminate]. pose proof (read_u_progress _ _ _ U).
+    destruct (read_n (rd_handler fuel) fuel hs r4 []) as [[hl r5]|e] eqn:R2; cbn [bind]; [|discriminate].
+    pose proof (read_n_rest _ _ (handler_progress fuel) _ _ _ _ _ _ R2). intros H'. injection H' as _ <-. lia. }
+  destruct (Z.odd insns && (0 <? tries)).
+  - destruct (u16 r1) as [[p y]|e] eqn:U; cbn [bind]; [|discriminate]. pose proof (u16_spec _ _ _ U). intros H'. apply Q in H'; lia.
+  - cbn [bind]. intros H'. apply Q in H'; lia.
+Qed.
+
 Lemma seek_length buf p : (length (seek buf p) <= length buf)%nat.
 Proof. unfold seek. destruct (p <? 0); [lia|]. rewrite skipn_length. lia. Qed.
 
@@ -115,7 +199,7 @@ Qed.
 Theorem section_ends : forall buf ty count off, noo (section (S (length buf)) buf ty count off).
 Proof.
   intros buf ty count off. unfold section. pose proof (seek_length buf (start_of ty off)) as SL. set (bs := seek buf (start_of ty off)) in *.
-  destruct (kind_of ty) as [[k|k p| | |]|] eqn:K; try discriminate.
+  destruct (kind_of ty) as [[k|k p| | | | | |]|] eqn:K; try discriminate.
   - destruct (read_n (rd_fixed k) (S (length buf)) count bs []) as [[xs r]|e] eqn:R; cbn [bind]; [discriminate|]. intros H. injection H as ->.
     revert R. apply (read_n_ends _ (rd_fixed k) (S (length buf))); try lia; [intros; apply fixed_noo | apply fixed_progress; exact (kind_fixed_pos _ _ K)].
   - pose proof (kind_sized_pos _ _ _ K) as KP.
@@ -127,6 +211,12 @@ Proof.
     revert R. apply (read_n_ends _ (rd_anndir (S (length buf))) (S (length buf))); try lia.
     + intros b Hb. apply anndir_noo. lia.
     + intros b x r. apply anndir_progress.
+  - destruct (read_n rd_strdata (S (length buf)) count bs []) as [[xs r]|e] eqn:R; cbn [bind]; [discriminate|]. intros H. injection H as ->.
+    revert R. apply (read_n_ends _ rd_strdata (S (length buf))); try lia; [intros; apply strdata_noo | apply strdata_progress].
+  - destruct (read_n (rd_code (length buf) (S (length buf))) (S (length buf)) count bs []) as [[xs r]|e] eqn:R; cbn [bind]; [discriminate|]. intros H. injection H as ->.
+    revert R. apply (read_n_ends _ (rd_code (length buf) (S (length buf))) (S (length buf))); try lia.
+    + intros b Hb. apply code_noo. lia.
+    + intros b x r. apply code_progress.
 Qed.
 
 Lemma sections_end buf : forall items, noo (sections (S (length buf)) buf items).
@@ -155,7 +245,8 @@ Proof.
   intros buf off. unfold map_list. pose proof (seek_length buf off) as SL.
   destruct (u32 (seek buf off)) as [[n r]|e] eqn:U; cbn [bind]; [|intros H; injection H as ->; exact (u32_noo _ U)]. pose proof (u32_spec _ _ _ U).
   destruct (read_n rd_mitem (S (length buf)) n r []) as [[items r1]|e] eqn:R; cbn [bind].
-  - destruct (sections (S (length buf)) buf items) as [ns|e] eqn:S1; cbn [bind]; [discriminate|]. intros H'. injection H' as ->. exact (sections_end buf items S1).
+  - destruct (sections (S (length buf)) buf (MapOrderModel.isort load_rank items)) as [ns0|e] eqn:S0; cbn [bind]; [|intros H'; injection H' as ->; exact (sections_end buf _ S0)].
+    destruct (sections (S (length buf)) buf items) as [ns|e] eqn:S1; cbn [bind]; [discriminate|]. intros H'. injection H' as ->. exact (sections_end buf items S1).
   - intros H'. injection H' as ->. revert R. apply (read_n_ends _ rd_mitem (S (length buf))); try lia; [intros; apply mitem_noo|].
     intros b x r' Hr. apply mitem_progress in Hr. lia.
 Qed.
@@ -170,6 +261,7 @@ Proof.
   intros fuel buf off l. unfold map_list. pose proof (seek_length buf off) as SL.
   destruct (u32 (seek buf off)) as [[n r]|e] eqn:U; cbn [bind]; [|discriminate]. pose proof (u32_spec _ _ _ U).
   destruct (read_n rd_mitem fuel n r []) as [[items r1]|e] eqn:R; cbn [bind]; [|discriminate]. apply read_mitems_count in R. cbn [length] in R.
+  destruct (sections fuel buf (MapOrderModel.isort load_rank items)) as [ns0|e]; cbn [bind]; [|discriminate].
   destruct (sections fuel buf items) as [ns|e]; cbn [bind]; [|discriminate]. intros H'. injection H' as <-. rewrite combine_length. lia.
 Qed.
 Print Assumptions map_list_ends.
@@ -182,4 +274,8 @@ Example map_example : map_list (S (length ex_buf)) ex_buf 16 =
   Ok [({| m_type := 4097; m_count := 1; m_off := 0 |}, 1); ({| m_type := 1; m_count := 2; m_off := 0 |}, 2); ({| m_type := 4096; m_count := 1; m_off := 16 |}, 0)].
 Proof. vm_compute. reflexivity. Qed.
 Example map_example_huge : map_list 60 (firstn 36 ex_buf ++ [255;255;255;255] ++ skipn 40 ex_buf) 16 = Err StructError.
+Proof. vm_compute. reflexivity. Qed.
+
+(* the order the sections are parsed in is the one C07's model computes from the dependency table of the source *)
+Example load_order_is : load_order = [0; 4096; 8194; 1; 2; 4; 4097; 3; 5; 8; 7; 8192; 8195; 8193; 8196; 4099; 4098; 8197; 8198; 6; 61440].
 Proof. vm_compute. reflexivity. Qed.
